@@ -13,9 +13,9 @@ VARIABLES ms, pc, bad, nextScope, emitted
 vars == <<ms, pc, bad, nextScope, emitted>>
 
 Cfgs == {[fw |-> f, nmw |-> n, mwfail |-> mf, handler |-> h, registered |-> rg, method |-> m, recovery |-> rc,
-          scopemw |-> sm, provclosed |-> pcl, batch |-> b, outer |-> ou] :
+          scopemw |-> sm, provclosed |-> pcl, batch |-> b, outer |-> ou, closefail |-> cf] :
             f \in Frameworks, n \in 0..MaxMw, mf \in 0..MaxMw, h \in {"ok", "err", "panic", "handle"}, rg \in BOOLEAN,
-            m \in {"ok", "panic"}, rc \in BOOLEAN, sm \in BOOLEAN, pcl \in BOOLEAN, b \in Batches, ou \in BOOLEAN}
+            m \in {"ok", "panic"}, rc \in BOOLEAN, sm \in BOOLEAN, pcl \in BOOLEAN, b \in Batches, ou \in BOOLEAN, cf \in BOOLEAN}
 \* drop combinations that only repeat others
 Relevant(c) == /\ c.mwfail <= c.nmw
                /\ (c.handler # "handle" => (c.registered /\ c.method = "ok" /\ ~c.recovery))
@@ -23,6 +23,7 @@ Relevant(c) == /\ c.mwfail <= c.nmw
                /\ (c.provclosed => (c.nmw = 0 /\ c.handler \in {"ok", "handle"}))
                /\ (c.batch > 1 => (c.handler \in {"ok", "handle"} /\ c.mwfail = 0 /\ ~c.provclosed))
                /\ (c.outer => (c.scopemw /\ ~c.provclosed /\ c.mwfail = 0 /\ c.handler \in {"ok", "handle"}))
+               /\ (c.closefail => (c.scopemw /\ ~c.provclosed /\ ~c.outer /\ c.nmw <= 1))
 
 Reqs(c) == 1..c.batch
 
@@ -74,13 +75,19 @@ Close(r) == /\ pc[r] = "close"
             /\ IF ms.reqs[r].probe # 0 /\ ms.reqs[r].probeClosed = 0
                THEN Feed([ev |-> "probe_close", probe |-> ms.reqs[r].probe]) /\ UNCHANGED pc
                ELSE IF ms.reqs[r].scope # NONE
-               THEN Feed([ev |-> "scope_closed", scope |-> ms.reqs[r].scope]) /\ pc' = [pc EXCEPT ![r] = "finish"]
+               THEN Feed([ev |-> "scope_closed", scope |-> ms.reqs[r].scope])
+                    /\ pc' = [pc EXCEPT ![r] = IF CloseFails(ms.cfg) /\ ms.reqs[r].probe # 0 THEN "closeerr" ELSE "finish"]
                ELSE UNCHANGED <<ms, bad>> /\ pc' = [pc EXCEPT ![r] = "finish"]
             /\ UNCHANGED <<nextScope, emitted>>
+CloseErr(r) == pc[r] = "closeerr" /\ Feed([ev |-> "closeerrh"]) /\ pc' = [pc EXCEPT ![r] = "finish"]
+               /\ UNCHANGED <<nextScope, emitted>>
+End == /\ \A r \in Reqs(ms.cfg) : pc[r] = "done"
+       /\ ~emitted /\ emitted' = TRUE
+       /\ Feed([ev |-> "end"]) /\ UNCHANGED <<pc, nextScope>>
 Finish(r) == pc[r] = "finish" /\ Feed([ev |-> "done", rq |-> r, status |-> 0, panicked |-> PanicEscapes(ms.cfg)])
              /\ pc' = [pc EXCEPT ![r] = "done"] /\ UNCHANGED <<nextScope, emitted>>
 
-Next == \E r \in 1..3 : Arrive(r) \/ ErrScope(r) \/ Mw(r) \/ ErrMw(r) \/ Handler(r) \/ PanicH(r) \/ Close(r) \/ Finish(r)
+Next == End \/ \E r \in 1..3 : Arrive(r) \/ ErrScope(r) \/ Mw(r) \/ ErrMw(r) \/ Handler(r) \/ PanicH(r) \/ Close(r) \/ CloseErr(r) \/ Finish(r)
 Spec == Init /\ [][Next]_vars
 
 Emit == IF EmitOn /\ \A r \in 1..3 : pc[r] = "new" THEN PrintT(<<"SCN", ToJson(ms.cfg)>>) ELSE TRUE
